@@ -319,7 +319,7 @@ def gen_ops(cat, rng, tier):
     vg = ValGen(cat, rng)
     ops = []
     names, sups = cat.names, cat.sups
-    reps = 1 if tier == 'quick' else 12
+    reps = 1 if tier == 'quick' else 30
     dist = {}
 
     def add(lane, head, used):
@@ -724,8 +724,7 @@ def run(tier):
             bad.append((i, op, why))
     seen = set()
     for i, op, why in bad:
-        p = parse_op(cat, op)
-        key = (p['lane'], why.split(':')[0][:40])
+        key = (why.split(':')[0][:6], (impl[i] or 'none').replace('cfg', '').split()[0])   # one report per (demand class, outcome class)
         if key in seen:
             continue
         seen.add(key)
